@@ -584,6 +584,11 @@ func c13(c *core.Ctx) {
 	c.Clause("C13.5", "round length and rotation are computed over one list: GetDeputiesCount (the number of slots in a round), GetMinerDistance and GetDeputyByDistance (who owns a slot) all answer from GetDeputiesByHeight(height, true), the term's node list cut to DeputyCount (the rule of C03.6, evaluated here as well)")
 	c.Run("one-deputy-set", func() { oneDeputySet(c) })
 
+	c.Clause("C13.6", "rank is position: NewTermRecord refuses a deputy list in which some node's Rank differs from its index (the miner computes distances from ranks, the verifier indexes the list)")
+	c.Run("rank-is-index", func() { c13RankIsIndex(c) })
+	c.Clause("C13.7", "one slot length: the miner rotates by the configured timeout as it is — every write of Miner.timeoutTime is a plain read of MineConfig.Timeout and that field, unmodified, is what GetNextMineWindow gets")
+	c.Run("slot-length-unmodified", func() { c13SlotLengthUnmodified(c) })
+
 	c.NotDecidedf("slot arithmetic is NOT decided: uniqueness of the in-turn deputy per instant, rotation by rank (GetDeputyByDistance), the modulo/window computation in GetCorrectMiner, that GetNextMineWindow is the earliest unfinished slot and agrees with GetCorrectMiner at window boundaries — these quantify over integers and deputy tables")
 	c.NotDecidedf("that the miner loop wakes up inside its own window (timers, wall clock), and the one-second tolerance of verifyTime")
 	c.NotDecidedf("writes to the header through packages outside the scanned scope (storage, RLP reflection, logging) — they are handed values or decode into fresh objects; stated as trusted base, not decided")
